@@ -294,6 +294,31 @@ func globalStoreScan(eng *Engine) []*LedgerEntry {
 				case *ssa.MapUpdate:
 					addr = x.Map
 				}
+				if call, ok := ins.(ssa.CallInstruction); ok {
+					// package-level memory handed to a callee as a writable slice or pointer (e.g.
+					// utf8.EncodeRune(scratch[:], r), copy(scratch[:], ...), append(scratch[:0], ...)):
+					// the callee may write it. Reading builtins and value (non-pointer) arguments are fine.
+					cc := call.Common()
+					if b, isB := cc.Value.(*ssa.Builtin); isB && (b.Name() == "len" || b.Name() == "cap") {
+						continue
+					}
+					for k, a := range cc.Args {
+						switch a.Type().Underlying().(type) {
+						case *types.Slice, *types.Pointer:
+						default:
+							continue
+						}
+						if b, isB := cc.Value.(*ssa.Builtin); isB && (b.Name() == "copy" || b.Name() == "append") && k > 0 {
+							continue // source operand of copy / appended elements: read only
+						}
+						e.Instances++
+						if g := origin(a, 0); g != nil {
+							e.Status = "failed"
+							e.Detail = fmt.Sprintf("package-level variable %s is passed as writable memory to a call at %s", g.Name(), eng.prog.Fset.Position(ins.Pos()))
+						}
+					}
+					continue
+				}
 				if addr == nil {
 					continue
 				}
